@@ -376,6 +376,13 @@ def translate(ctx: Any) -> Dict[str, Any]:
         ('asyncssh/connection.py', 'SSHServerConnection._process_direct_tcpip_open'),
         ('asyncssh/connection.py', 'SSHServerConnection._finish_port_forward'),
         ('asyncssh/connection.py', 'SSHConnection._cleanup'),
+        ('asyncssh/connection.py', 'SSHConnection.forward_connection'),
+        ('asyncssh/connection.py', 'SSHConnection.forward_unix_connection'),
+        ('asyncssh/connection.py', 'SSHConnection.forward_local_path'),
+        ('asyncssh/connection.py', 'SSHServerConnection._process_tcpip_forward_global_request'),
+        ('asyncssh/connection.py', 'SSHServerConnection._process_direct_streamlocal_at_openssh_dot_com_open'),
+        ('asyncssh/listener.py', 'create_tcp_local_listener'),
+        ('asyncssh/listener.py', 'create_unix_forward_listener'),
         ('asyncssh/listener.py', 'SSHForwardListener')]}
     return {'gen_changed': changed, 'checks': {k: v for k, v in info.items() if k not in ('socks',)},
             'socks_consts': info['socks'], 'ast_pins': pins}
